@@ -606,6 +606,15 @@ static void caseC14(uint64_t idx, vh::Rng& g)
 	if (!a.rules.empty() && ns >= 2) { R->nontrivial(vh::fnv(canon(al) + canon(a) + vh::str(mode) + vh::str(m.begin()->second) + vh::str(m.rbegin()->second))); if (R->wantSample()) R->sample(kind + "\n" + caseText(al, a)); }
 	RTA img; for (auto& r : a.rules) { RRule x; x.sym = r.sym; x.par = m[r.par]; for (St c : r.ch) x.ch.push_back(m[c]); img.rules.insert(x); }
 	for (St f : a.fin) img.fin.insert(m[f]);
+	if (g.chance(1, 3) && m.size() >= 2)
+	{	// a call the library must refuse (the map misses a state): it throws, and nothing of it may show in the calls
+		// that follow (seeded change m93: a process-wide scratch tuple left half-filled by the refused call)
+		R->phase("CollapseStates with a partial map (must throw)"); R->count("refused-partial-map");
+		AutBase::StateToStateMap pm(m.begin(), m.end()); auto it = pm.begin(); std::advance(it, g.below(pm.size())); pm.erase(it);
+		try { Aut b = A.CollapseStates(pm); RTA rb = readExpl(b, &ca); R->count("partial-map-accepted(missing-state-unused)"); }
+		catch (std::exception&) { R->count("partial-map-refused"); }
+		if (readExpl(A, &ca) != a) R->violation("C14/operand-changed", "by a refused CollapseStates");
+	}
 	try
 	{
 		{ R->phase("ReindexStates(functor)"); MapF f(m); Aut b = A.ReindexStates(f); RTA rb = readExpl(b, &ca);
